@@ -145,6 +145,7 @@ fn handle_put<R: Read, W: Write>(
     let tmp = tmp_of(&dst);
     // Stream exactly `len` bytes to the temp file + hash them (never buffer whole).
     let mut hasher = blake3::Hasher::new();
+    let mut staged: u64 = 0;
     {
         let mut tf = std::fs::File::create(&tmp)?;
         let mut limited = r.take(len);
@@ -156,10 +157,16 @@ fn handle_put<R: Read, W: Write>(
             }
             hasher.update(&buf[..n]);
             tf.write_all(&buf[..n])?;
+            staged += n as u64;
         }
         tf.sync_all()?;
     }
-    // Integrity: the streamed content must match the hash the client claimed.
+    // Integrity: the streamed content must have the length and the hash the client claimed
+    // (a stream that ends early is not the declared upload, whatever its bytes hash to).
+    if staged != len {
+        let _ = std::fs::remove_file(&tmp);
+        return write_frame(w, &Response::Error("content length mismatch".into()));
+    }
     if *hasher.finalize().as_bytes() != hash {
         let _ = std::fs::remove_file(&tmp);
         return write_frame(w, &Response::Error("content hash mismatch".into()));
